@@ -382,7 +382,11 @@ def stft_gap_previous_length_sweep(ctx):
     for style, lms, sms in (("causal", 5.0, 12.0), ("centered", 5.0, 12.0), ("causal", 10.0, 30.0)):
         def mk():
             return compute.STFTFrameComputer(bank, frame_length_ms=lms, frame_shift_ms=sms, frame_style=style)
-        c0 = mk()
+        try:
+            c0 = mk()
+        except Exception as e:   # a shift longer than the frame refused at construction: no such computer, nothing to check
+            ctx.count("stft_gap_ctor_error:" + type(e).__name__)
+            continue
         L, S = c0.frame_length, c0.frame_shift
         x2 = np.random.RandomState(79).randn(3 * S + 11)
         ref = mk().compute_full(x2)
